@@ -478,3 +478,53 @@ def c36(pid, tier):
                           traces_validated=0, violations=1 if rc == 1 else 0, known=known)
     print(f"[{pid}] {sum(1 for r in S.results if r.verdict in ('HOLDS', 'REACHABLE'))}/{len(S.results)} queries discharged, wall {time.time() - t0:.1f}s, exit {rc}")
     return rc
+
+
+# ----------------------------------------------------------------------------- C11 (structural half)
+@register("C11")
+def c11(pid, tier):
+    t0 = time.time()
+    csxlib.build_emitter()
+    specs = ["privfull:1", "pubfull:1:1"] if tier == "quick" else ["privfull:1", "privfull:2", "pubfull:1:1", "pubfull:2:1"]
+    irs = csxlib.emit(pid, specs)
+    S = Session(pid, [], verbose=True)
+    replays, inconcl, stats = {}, [], {}
+    for sp in specs:
+        name = sp.replace(":", "_")
+        ir = irs[name]
+        sx = symx.SymX(ir, inputs=[])
+        vk = sx.named("vk")
+        exp = ir["consts"]["vk_expected"]
+        stats[name] = {"rows_total": ir["degree"], "constant_rows": len(ir["rows"]), "gate_row_histogram": dict(zip(ir["gate_types"], ir["row_histogram"])),
+                       "vk_wires": len(vk), "refuses_wrong_pi_count (concrete observation)": ir["consts"].get("refuses_wrong_pi_count")}
+        s = Session(f"C11 {name}", sx.asserts, timeout_s=60, verbose=False)
+        if len(vk) != len(exp) or len(vk) < 8:
+            S.results.append(Result(f"{name}: recorded verifier-key wires match the canonical key length", "holds", "CEX", 0.0))
+            continue
+        free = sum(1 for t in vk if t.k != "c")
+        s.sat(f"{name}: vacuity, the constant-gate constraints are satisfiable")
+        r = s.holds(f"{name}: in every witness all {len(vk)} child verifier-key wires (circuit digest + Merkle cap) equal the canonical child's key "
+                    f"({len(vk) - free} pinned by constant gates)", z3.And([t.as_int() == e for t, e in zip(vk, exp)]))
+        S.results += s.results
+        for q in s.results:
+            print(f"  {q.name:120s} {q.verdict:10s} {q.secs:6.2f}s", flush=True)
+        if r.verdict == "CEX":
+            rp = csxlib.replay(pid, "privfull:1", [{"label": "foreign-circuit attack", "mode": "vk_attack"}])
+            path = csxlib.replay_path(pid)
+            json.dump({"query": r.name, "replay": rp}, open(path, "w"))
+            ok = bool(rp and rp[0].get("accepted"))
+            replays[r.name] = (ok, path, r.name + "; " + ("the real private-batch circuit proved and verified a proof of an UNCONSTRAINED foreign circuit "
+                               "(fee 20000 bps) with the foreign verifier key on the key wires" if ok else str(rp[0].get("detail"))))
+        if ir["consts"].get("refuses_wrong_pi_count") == [0]:
+            inconcl.append(f"{name}: constructor accepted a child circuit with the wrong public-input count (concrete observation)")
+    rc, known = finish(pid, S.results, replays, inconcl)
+    csxlib.write_evidence(pid, tier, t0, [S], ["wormhole_aggregator::common::recursive::add_recursive_verifiers (real PrivateBatchCircuit::new / PublicBatchCircuit::new over the canonical child circuits)",
+                                               "plonky2 CircuitBuilder::constant_verifier_data as built (ConstantGate rows + copy classes of the recorded key wires)"],
+                          {"circuits": f"{specs}: the full recursive circuits built by the real constructors (4096 rows); only the constant gates and the copy classes of the recorded key wires are encoded",
+                           "claim": "no witness can put a different verifier key on the wires that verify_proof reads",
+                           "outside": "that a pinned key makes proofs of any other circuit unsatisfiable is FRI/PLONK recursive-verifier soundness (plonky2), assumed; larger N/M use the same single call; the PI-count refusal is a concrete observation, not a solver claim"},
+                          W_ASSUME[1:2] + ["guarded recorder hook in add_recursive_verifiers names the key wires"],
+                          extra={"encoding": stats, "states": sum(v["constant_rows"] for v in stats.values()), "transitions": sum(v["vk_wires"] for v in stats.values())},
+                          traces_validated=0, violations=1 if rc == 1 else 0, known=known)
+    print(f"[{pid}] {sum(1 for r in S.results if r.verdict in ('HOLDS', 'REACHABLE'))}/{len(S.results)} queries discharged, wall {time.time() - t0:.1f}s, exit {rc}")
+    return rc
